@@ -178,27 +178,27 @@ theorem run_mid (w : World Req Resp) (source : Val) (tag : String) (st : Step Re
 theorem stepCode_split : stepCode = .initVars :: .pre :: .chk :: .storePre :: midCode := rfl
 
 /-- the preprocessor stage as `shootStep` writes it -/
-def preRes (source : Val) (st : Step ReqDef) (rv : List (String × Val)) (it : Iter) :
+def preRes (w : World Req Resp) (source : Val) (st : Step ReqDef) (rv : List (String × Val)) (it : Iter) :
     Outcome (List (String × Val) × Iter) :=
   match st.req.pre with
   | none => .ok ([], it)
-  | some m => runPre (tree source (setKey st.req.name (.map []) rv)) st.req.iter m [] it
+  | some m => runPre w.fn (tree source (setKey st.req.name (.map []) rv)) st.req.iter m [] it
 
 theorem run_head (w : World Req Resp) (source : Val) (tag : String) (st : Step ReqDef)
     (rv : List (String × Val)) (g : GState Req) :
     out (runSOps w source tag st stepCode { rv, g }) =
-      match preRes source st rv g.iter with
+      match preRes w source st rv g.iter with
       | .panic _ => none
       | .err _ => some (true, setKey st.req.name (.map []) rv, g)
       | .ok (pv, it') =>
         midOut w source tag st (setKey st.req.name (.map [("preprocessor", .map pv)]) (setKey st.req.name (.map []) rv))
           [("preprocessor", .map pv)] pv { g with iter := it' } := by
   rw [stepCode_split, runSOps, runSOps]
-  show out (match preRes source st rv g.iter with
+  show out (match preRes w source st rv g.iter with
     | .panic _ => .undef
     | .err _ => _
     | .ok (pv, it') => _) = _
-  cases preRes source st rv g.iter with
+  cases preRes w source st rv g.iter with
   | panic p => rfl
   | err e =>
     simp only []
@@ -256,7 +256,7 @@ theorem runStepCode_eq (w : World Req Resp) (source : Val) (scName : String) (st
     c15_after_pre w st g ([] : List (String × Val))
   | some m =>
     simp only []
-    generalize runPre (tree source (setKey st.req.name (Val.map []) rv)) st.req.iter m [] g.iter = pre
+    generalize runPre w.fn (tree source (setKey st.req.name (Val.map []) rv)) st.req.iter m [] g.iter = pre
     cases pre with
     | panic p => rfl
     | err e => rfl
